@@ -34,7 +34,7 @@ ASSUMPTIONS = [
     "(first colliding file wins, congruence is relative to the first file) - that is C11's subject",
 ]
 
-DEFECTS = ['none'] * 6 + ['drop1', 'duplicate', 'nopix', 'tie_straddle', 'misfiled_dup', 'gap', 'collide']
+DEFECTS = ['none'] * 6 + ['drop1', 'duplicate', 'nopix', 'tie_straddle', 'misfiled_dup', 'gap', 'collide', 'bad_ordinate']
 
 
 def rand_query(rng):
@@ -58,6 +58,8 @@ def gen_cases(rng, tier):
         defect = rng.choice(DEFECTS)
         if defect == 'collide' and cfg['mode'] in ('guess', 'none'):
             cfg = L.rand_config(rng, tier, want=rng.choice(['time', 'timevec']))
+        if defect == 'bad_ordinate':
+            cfg = L.rand_config(rng, tier, want=rng.choice(['time', 'timevec']), force_abs=True)
         if defect == 'tie_straddle' and (cfg['mode'] != 'guess' or cfg['S'] < 2 or cfg['T'] < 2):
             cfg = L.rand_config(rng, tier, want='guess')
             cfg['S'] = max(cfg['S'], 2)
